@@ -33,7 +33,11 @@ RULE = (
     "the arguments of the transformations: a permutation of the motif-sized columns, a permutation of the sequences, child "
     "permutations at every internal node, repeat factor k in {2,3} (tiled or in place), a multiset of columns to append, two root "
     "placements (at an internal node or at a fraction of an edge), one library re-rooting, 1-3 edge splits, and a combination of all "
-    "of them. Each transformed problem is one evaluation. Non-trivial = unequal motif probabilities and (a non-identity column "
+    "of them. The word-* subs do the same for user-built reversible word models (TimeReversibleCodon with kappa+omega, "
+    "TimeReversibleNucleotide(motif_length=2|3) with kappa+CpG, TimeReversibleDinucleotide with kappa) under every mprob_model in "
+    "{tuple, conditional, monomer, monomers}, 3-5 tips, with word probabilities = product of per-position nucleotide frequencies "
+    "that are distinct permutations of (0.46, 0.29, 0.15, 0.10) perturbed by <= 10 %, times a per-word factor in [0.8, 1.25] (1 in a "
+    "quarter of the cases). Each transformed problem is one evaluation. Non-trivial = unequal motif probabilities and (a non-identity column "
     "permutation over >= 3 distinct columns, or a root moved across >= 1 internal node); distinct = distinct case encodings."
 )
 ASSUMPTIONS = [
@@ -45,6 +49,7 @@ ASSUMPTIONS = [
     "codon alignments hold sense codons of the standard code, '---', 'NNN' or a sense codon with N in third position (not for TA./TG. prefixes); BH/DT alignments have no gaps or '?'",
     "branch lengths in [1e-3, 3], rate parameters in [0.1, 10], motif probabilities >= 2e-6 (set_motif_probs lifts smaller values to 1e-6 itself); rate heterogeneity only as gamma-distributed 'rate' with equal bin probabilities; BH/DT psub matrices are row-stochastic with a dominant diagonal",
     "all parameters are set constant through apply_param_rules / set_motif_probs; lnL is read from lf.lnL without optimisation; substitution model instances are deep copies of one pristine instance per process",
+    "user-built word models are given word probabilities (dict over the word alphabet) through set_motif_probs for every mprob_model; the monomer / monomers models derive their (position-specific) nucleotide frequencies from them as documented by adapt_motif_probs; all of these models are time-reversible by construction, so every relation applies",
     "library re-rooting (rooted_at / rooted_with_tip) is only used when parameters are globally scoped, and its relation is skipped when the library's result does not preserve the tip-to-tip path lengths (that is C09's clause)",
 ]
 
@@ -57,7 +62,7 @@ PROT = ["DSO78", "JTT92", "AH96", "AH96_mtmammals", "WG01"]
 REVERSIBLE = set(NUC_REV + CODON_REV + PROT)
 DISCRETE = set(NUC_DISCRETE)
 TINY_PROB = 2e-6  # set_motif_probs itself lifts anything below 1e-6 to that value
-SKIP_PARAMS = {"mprobs", "length", "psubs", "bprobs", "rate", "rate_shape", "dpsubs"}
+SKIP_PARAMS = {"psmprobs", "mprobs", "length", "psubs", "bprobs", "rate", "rate_shape", "dpsubs"}
 
 NUCS = "ACGT"
 NUC_DEGEN = ["N", "R", "Y", "W", "S", "K", "M", "-", "?"]
@@ -66,6 +71,12 @@ STOPS = {"TAA", "TAG", "TGA"}
 SENSE = [a + b + c for a in "TCAG" for b in "TCAG" for c in "TCAG" if a + b + c not in STOPS]
 AAS = "ACDEFGHIKLMNPQRSTVWY"
 AA_DEGEN = ["X", "B", "Z", "-", "?"]
+TRIPLETS = [a + b + c for a in "TCAG" for b in "TCAG" for c in "TCAG"]
+DINUCS = [a + b for a in "TCAG" for b in "TCAG"]
+# user-built reversible word models: kind -> (word list, word length)
+WORD_KINDS = {"codon": SENSE, "tri": TRIPLETS, "di": DINUCS, "dinuc": DINUCS}
+MPROB_MODELS = ["tuple", "conditional", "monomer", "monomers"]
+POSITION_PROFILE = [0.46, 0.29, 0.15, 0.10]  # nucleotide frequencies at a word position, permuted per position
 TIP_POOL = ["Human", "mouse", "t10", "t2", "A_1", "z", "b", "Rat", "t1", "Zeta"]
 
 
@@ -262,6 +273,10 @@ def columns_st(draw, family, ntips, gaps_ok):
         motifs, degen = list(NUCS), (NUC_DEGEN if gaps_ok else NUC_DEGEN_NOGAP)
     elif family == "prot":
         motifs, degen = list(AAS), AA_DEGEN
+    elif family in ("di", "dinuc"):
+        motifs, degen = DINUCS, ["--", "NN", "2N"]
+    elif family == "tri":
+        motifs, degen = TRIPLETS, ["---", "NNN", "3N"]
     else:
         motifs, degen = SENSE, ["---", "NNN", "3N"]
     npool = draw(st.integers(2, 8))
@@ -279,7 +294,9 @@ def columns_st(draw, family, ntips, gaps_ok):
                 m = degen[draw(st.integers(0, len(degen) - 1))]
                 if m == "3N":
                     c = motifs[base]
-                    m = c if c[:2] in ("TA", "TG") else c[:2] + "N"
+                    m = c if (family != "tri" and c[:2] in ("TA", "TG")) else c[:2] + "N"
+                elif m == "2N":
+                    m = motifs[base][0] + "N"
             col.append(m)
         pool.append(col)
     ncols = draw(st.integers(2, 12))
@@ -356,6 +373,75 @@ def case_st(draw, family, models=None):
     }
 
 
+@st.composite
+def word_case_st(draw, kind, mprob_models):
+    """user-built reversible word model ``kind`` with motif-probability model drawn from ``mprob_models``; word
+    probabilities are a product of per-position nucleotide frequencies that differ clearly between positions
+    (each position gets its own permutation of POSITION_PROFILE, slightly perturbed) times a per-word factor"""
+    if kind is None:  # either way of building a dinucleotide model
+        kind = draw(st.sampled_from(["dinuc", "di"]))
+    words = sorted(WORD_KINDS[kind])
+    wl = len(words[0])
+    mpm = draw(st.sampled_from(mprob_models))
+    tree = draw(tree_st(3, 5, False))
+    ntips = len(m_tips(tree))
+    cols = draw(columns_st("codon" if kind == "codon" else kind, ntips, gaps_ok=True))
+    ncols = len(cols)
+    perms = []
+    for k in range(wl):
+        pm = list(draw(st.permutations([0, 1, 2, 3])))
+        while pm in perms:  # positions must differ
+            pm = pm[1:] + pm[:1]
+        perms.append(pm)
+    pos = [[POSITION_PROFILE[pm[i]] * draw(st.floats(0.9, 1.1, allow_nan=False)) for i in range(4)] for pm in perms]
+    pure = draw(st.integers(0, 3)) == 0
+    jit = [1.0 if pure else draw(st.floats(0.8, 1.25, allow_nan=False)) for _ in words]
+    w = []
+    for word, j in zip(words, jit):
+        x = j
+        for k, ch in enumerate(word):
+            x *= pos[k]["ACGT".index(ch)]
+        w.append(x)
+    pvals = [draw(st.one_of(st.just(1.0), _loguniform(0.1, 10.0), _loguniform(0.1, 10.0))) for _ in range(12)]
+    scope = draw(st.sampled_from(["global", "global", "edge"]))
+    nnodes = len(m_nodes(tree))
+    xf = {
+        "colperm": list(draw(st.permutations(list(range(ncols))))),
+        "seqperm": list(draw(st.permutations(list(range(ntips))))),
+        "kids": [draw(st.integers(0, 23)) for _ in range(len(m_internal(tree)))],
+        "k": draw(st.sampled_from([2, 3])),
+        "tile": draw(st.booleans()),
+        "dup": draw(st.lists(st.integers(0, ncols - 1), min_size=1, max_size=ncols)),
+        "reroot": [
+            {"node": draw(st.integers(0, nnodes - 1)), "frac": draw(st.floats(0.05, 0.95, allow_nan=False)), "at": draw(st.booleans())}
+            for _ in range(2)
+        ],
+        "lib": {"node": draw(st.integers(0, nnodes - 1)), "tip": draw(st.booleans())},
+        "split": [
+            {"node": draw(st.integers(0, nnodes - 1)), "frac": draw(st.floats(0.05, 0.95, allow_nan=False))}
+            for _ in range(draw(st.integers(1, 3)))
+        ],
+    }
+    return {
+        "family": "word",
+        "kind": kind,
+        "mprob_model": mpm,
+        "model": f"word:{kind}:{mpm}",
+        "bins": 0,
+        "shape": 1.0,
+        "new_type": draw(st.integers(0, 3)) == 0,
+        "default_expm": draw(st.sampled_from([False, True, False])),
+        "tree": tree,
+        "cols": cols,
+        "pi_mode": "position-skewed-product" if pure else "position-skewed",
+        "position_freqs": pos,
+        "mp": w,
+        "pvals": pvals,
+        "scope": scope,
+        "xf": xf,
+    }
+
+
 # ------------------------------------------------------------------ execution
 class _Ctx:
     pass
@@ -373,9 +459,29 @@ def _get_sm(model, bins):
 
     key = (model, bool(bins))
     if key not in _PRISTINE:
-        kw = {"ordered_param": "rate", "distribution": "gamma"} if bins else {}
-        _PRISTINE[key] = cogent3.get_model(model, **kw)
+        if model.startswith("word:"):
+            _PRISTINE[key] = _build_word_model(*model.split(":")[1:])
+        else:
+            kw = {"ordered_param": "rate", "distribution": "gamma"} if bins else {}
+            _PRISTINE[key] = cogent3.get_model(model, **kw)
     return copy.deepcopy(_PRISTINE[key])
+
+
+def _build_word_model(kind, mpm):
+    """reversible word models built the way cogent3.evolve.models builds the canned ones"""
+    from cogent3.evolve import substitution_model as smod
+    from cogent3.evolve.predicate import MotifChange, omega
+
+    kappa = (smod.kappa_y | smod.kappa_r).aliased("kappa")
+    cg = MotifChange("CG").aliased("G")
+    common = dict(mprob_model=mpm, recode_gaps=True, model_gaps=False, name=f"user-{kind}-{mpm}")
+    if kind == "codon":
+        return smod.TimeReversibleCodon(predicates=[kappa, omega], **common)
+    if kind == "tri":
+        return smod.TimeReversibleNucleotide(motif_length=3, predicates=[kappa, cg], **common)
+    if kind == "di":
+        return smod.TimeReversibleNucleotide(motif_length=2, predicates=[kappa, cg], **common)
+    return smod.TimeReversibleDinucleotide(predicates=[kappa], **common)
 
 
 def _lnl(ctx, tm, cols, order, real_tree=None, pade=False):
@@ -444,6 +550,9 @@ def execute(case) -> Soft:
     import cogent3
 
     fam = case["family"]
+    word = fam == "word"
+    if word:
+        fam = f"word-{case['kind']}-{case['mprob_model']}"  # part of every signature
     s = Soft("C11/")
     model = case["model"]
     tm = case["tree"]
@@ -455,13 +564,18 @@ def execute(case) -> Soft:
     tips = ctx.tips
     ntips = len(tips)
     ncols = len(cols)
-    rev = model in REVERSIBLE
+    rev = word or model in REVERSIBLE
     discrete = model in DISCRETE
     ok, sm = s.call(f"get_model/{fam}", _get_sm, model, case["bins"])
     if not ok:
         return s
     ctx.sm = sm
-    keys = sorted(sm.get_mprob_alphabet())
+    # word models always get word probabilities; the monomer(s) models derive nucleotide frequencies from them
+    keys = sorted(sm.get_alphabet()) if word else sorted(sm.get_mprob_alphabet())
+    if word and keys != sorted(WORD_KINDS[case["kind"]]):
+        from vlib.core import HarnessError
+
+        raise HarnessError(f"word alphabet of {model} is not the expected one")
     w = case["mp"][: len(keys)]
     if not any(w):
         w = [1.0] * len(w)
@@ -472,13 +586,17 @@ def execute(case) -> Soft:
 
     kind = "discrete" if discrete else ("reversible" if rev else "nonreversible")
     distinct = len({tuple(c) for c in cols})
-    degen = any(m not in (SENSE if fam == "codon" else (AAS if fam == "prot" else NUCS)) for c in cols for m in c)
+    canon = WORD_KINDS[case["kind"]] if word else (SENSE if fam == "codon" else (AAS if fam == "prot" else NUCS))
+    degen = any(m not in canon for c in cols for m in c)
     s.cls(
-        f"family:{fam}", f"model:{model}", f"kind:{kind}", f"scope:{case['scope']}", "bins" if case["bins"] else "no-bins",
+        f"family:{case['family']}", f"model:{model}", f"kind:{kind}", f"scope:{case['scope']}", "bins" if case["bins"] else "no-bins",
         f"root-degree:{len(tm['kids'])}", "polytomy" if any(len(n["kids"]) > 2 for n in m_internal(tm)[1:]) or len(tm["kids"]) > 3 else "binary",
         "degenerate-symbols" if degen else "canonical-only", "duplicate-columns" if distinct < ncols else "all-columns-distinct",
         f"pi:{case['pi_mode']}", "new-type-alignment" if case["new_type"] else "old-type-alignment", f"tips:{ntips}",
     )
+
+    if word:
+        s.cls(f"word-kind:{case['kind']}", f"mprob_model:{case['mprob_model']}")
 
     ok, base = s.call(f"base/{fam}", _lnl, ctx, tm, cols, tips)
     if not ok:
@@ -631,11 +749,19 @@ SUBS = [
     Sub("codon-gnc", execute, strategy=case_st("codon", ["GNC"]), quick=24, thorough=2_400, shards_quick=2, weight=5.0),
 ]
 
+# user-built reversible word models (the registered models use only some kind x mprob_model combinations). 61/64-state
+# models take about 2 s to construct, so each of them gets its own single-shard sub; the 16-state ones are grouped by mprob_model.
+for _kind in ("codon", "tri"):
+    for _m in MPROB_MODELS:
+        SUBS.append(Sub(f"word-{_kind}-{_m}", execute, strategy=word_case_st(_kind, [_m]), quick=12, thorough=1_600, shards_quick=1, weight=4.0))
+for _m in MPROB_MODELS:
+    SUBS.append(Sub(f"word-dinuc-{_m}", execute, strategy=word_case_st(None, [_m]), quick=16, thorough=1_600, shards_quick=1, weight=1.0))
+
 KNOWN_PREDICATES = {}
 
 META = {
     "technique": "metamorphic relations between freshly built likelihood functions (column/sequence/child permutations, column repetition and appending, root placement at nodes and on edges, edge splitting), transformed trees produced by a harness tree model",
-    "level_text": "About a thousand generated likelihood problems per run over all 25 registered models (4-, 20- and 61-state), each evaluated under about ten transformations with every parameter fixed; the transformed log-likelihood must equal the original (or k times it, or the sum for appended columns) to 1e-9 relative. Root-placement and edge-split relations are evaluated with the Pade exponentiator (1e-9) or with the default exponentiator (1e-6).",
-    "level_note": "Relations between two runs of the implementation: a defect that shifts both sides equally is invisible here (that is C02's job). Trees bounded to 6 tips, alignments to 12 motif columns (36 after repetition); rate heterogeneity only as gamma bins on nucleotide models; no multi-locus functions, no dinucleotide models.",
+    "level_text": "About 1100 generated likelihood problems per run over all 25 registered models (4-, 20- and 61-state) and 16 user-built reversible word models (codon / trinucleotide / dinucleotide x 4 motif-probability models, position-specific nucleotide frequencies), each evaluated under about ten transformations with every parameter fixed; the transformed log-likelihood must equal the original (or k times it, or the sum for appended columns) to 1e-9 relative. Root-placement and edge-split relations are evaluated with the Pade exponentiator (1e-9) or with the default exponentiator (1e-6).",
+    "level_note": "Relations between two runs of the implementation: a defect that shifts both sides equally is invisible here (that is C02's job). Trees bounded to 6 tips, alignments to 12 motif columns (36 after repetition); rate heterogeneity only as gamma bins on nucleotide models; no multi-locus functions.",
     "design_ref": "DESIGN.md section 1, C11",
 }
